@@ -55,7 +55,7 @@ def effective(case: dict[str, typing.Any]) -> tuple[int, bool, str]:
 def build_graph(case: dict[str, typing.Any]) -> tuple[str, dict[tuple[str, str], dict[str, typing.Any]], list[dict[str, typing.Any]]]:
     """Returns (start url, routes, reference walk).  The walk lists the requests a conforming client with an
     unlimited budget makes (capped at 40): [{'url','origin','target','method','has_body','code','location'}]"""
-    start = redirnet.origin_url("A") + "/d0/h0"
+    start = redirnet.origin_url(case.get("start_origin", "A")) + "/d0/h0"
     routes: dict[tuple[str, str], dict[str, typing.Any]] = {}
     cur = start
     hops = case["hops"]
@@ -117,7 +117,7 @@ def run_case(rec: Recorder, case: dict[str, typing.Any]) -> None:
     from urllib3.exceptions import HTTPError, MaxRetryError
 
     start, routes, walk = build_graph(case)
-    server = redirnet.RedirServer(routes, fail_first=int(case.get("fail_first", 0)))
+    server = redirnet.RedirServer(routes, fail_first=int(case.get("fail_first", 0)), status_first=int(case.get("status_first", 0)))
     preq, plvl = build_policy(case["policy_req"]), build_policy(case["policy_lvl2"])
     result: typing.Any = None
     exc: BaseException | None = None
@@ -202,6 +202,8 @@ def run_case(rec: Recorder, case: dict[str, typing.Any]) -> None:
             return
         w = walk[j]
         problems = []
+        if case["client"] == "manager" and entry.get("via_proxy") is not None:
+            problems.append(f"absolute-form target sent to {entry['via_proxy']} without any proxy: the Location was not resolved by the manager but passed on as a target")
         if entry["origin"] != w["origin"] or entry["target"] != w["target"]:
             problems.append(f"went to {entry['origin']} {entry['target']}, reference resolution gives {w['origin']} {w['target']}")
         if entry["method"] != w["method"]:
@@ -282,6 +284,10 @@ def random_case(rng: typing.Any) -> dict[str, typing.Any]:
         case["loop"] = False
     if client == "manager" and rng.random() < 0.12:
         case["schemeless_start"] = True
+    if tolerant(preq) and tolerant(plvl) and "fail_first" not in case and rng.random() < 0.2:
+        # the first answer of the chain is a retried status (503 + Retry-After), the 3xx comes with the repeated request
+        case["status_first"] = 1
+        case["method"] = "GET"
     return case
 
 
@@ -304,6 +310,19 @@ def run_shard(ctx: Ctx, rec: Recorder) -> None:
                         rec.case(["sys", case])
                         run_case(rec, case)
     rec.exhaustive_parts.append(f"{len(POLICIES)-1} policy values x 3 placements x 3 clients x chain lengths 1-4 x 5 status codes")
+    # (i-a') a retried status (503 + Retry-After) before the 3xx of the first hop, every client, redirect on and off
+    for client in ("manager", "proxy", "pool"):
+        for form in (("absolute", "path", "relative", "scheme-relative") if client != "pool" else ("absolute", "path")):
+            for pol in (None, {"redirect": 2}, {"total": 5}):
+                for redirect_kw in (True, False):
+                    idx += 1
+                    if not ctx.mine(idx):
+                        continue
+                    to_seq = ["A", "A"] if client == "pool" else ["B", "C"]
+                    case = {"client": client, "hops": [{"code": 302, "to": to_seq[0], "form": form}, {"code": 307, "to": to_seq[1], "form": "absolute"}], "loop": False, "policy_req": pol, "policy_lvl2": None, "method": "GET", "redirect_kw": redirect_kw, "status_first": 1}
+                    rec.case(["status-first", client, form, pol, redirect_kw])
+                    rec.mon("status_retry_then_redirect")
+                    run_case(rec, case)
     # (i-a) the first URL given without scheme, every Location form on the first hop
     for form in FORMS:
         for code in (302, 307):
